@@ -43,13 +43,24 @@ func Creator(ctx context.Context, name string, options map[string]string) (physi
 			return nil, physical.Schema{}, fmt.Errorf("expected JSON object, got '%s'", sc.Text())
 		}
 
+		presentInRow := make(map[string]bool)
 		o.Visit(func(key []byte, v *fastjson.Value) {
+			presentInRow[string(key)] = true
 			if t, ok := fields[string(key)]; ok {
 				fields[string(key)] = octosql.TypeSum(t, getOctoSQLType(v))
+			} else if i > 1 {
+				// The field was missing in the previous rows, where it reads as NULL.
+				fields[string(key)] = octosql.TypeSum(getOctoSQLType(v), octosql.Null)
 			} else {
 				fields[string(key)] = getOctoSQLType(v)
 			}
 		})
+		for key, t := range fields {
+			if !presentInRow[key] {
+				// The field is missing in this row, where it reads as NULL.
+				fields[key] = octosql.TypeSum(t, octosql.Null)
+			}
+		}
 	}
 	if sc.Err() != nil {
 		return nil, physical.Schema{}, fmt.Errorf("couldn't scan lines: %w", sc.Err())
